@@ -5,7 +5,7 @@ let string_of_err = function
   | EHdrSize -> "hdrsize" | EVersion -> "version" | EName -> "name" | EStruct -> "struct"
   | EBufSmall -> "bufsmall" | ETruncated -> "truncated" | ENegPts -> "negpts" | EColon -> "colon"
   | ENameLen -> "namelen" | ETooMany -> "toomany" | EZeroDiv -> "zerodiv" | EScalars -> "scalars"
-  | EProps -> "props" | EOrder -> "order" | EFuel -> "fuel"
+  | EProps -> "props" | EBadPoint -> "badpoint" | EOrder -> "order" | EFuel -> "fuel"
 let offs = match trk_offs_now with Some o -> o | None -> failwith "layout"
 let rec take_pairs n args f = if n = 0 then ([], args) else match args with
   | a :: b :: r -> let (l, r') = take_pairs (n - 1) r f in (f a b :: l, r')
